@@ -158,6 +158,12 @@ def cases_c08(ctx):
         hs.append(([EDIT("output_mode"), RUN(), EDIT("output_mode"), RUN()], build))
         hs.append(([EDIT("output_mode"), RUN(), EDIT("validator"), RUN()], build))
         hs.append(([EDIT("visualize_deps"), RUN(), DEL("dependency-graph.txt"), RUN()], build))
+    # a setting switched on, off (with a source edit meanwhile) and on again: what the first run left behind must not pass
+    # for the result of the third
+    for build in (False, True):
+        for a in ("visualize_deps", "output_mode", "param_case", "field_case", "type_mappings"):
+            for b in (("param_type", "struct_field_type", "event_name") if tier == "thorough" else ("param_type",)):
+                hs.append(([EDIT(a), RUN(), EDIT(a, -1), EDIT(b), RUN(), EDIT(a), RUN()], build))
     # sequences of two edits (quick: a rotating sample; thorough: all ordered pairs) on the CLI path
     pairs = list(itertools.permutations(aspects, 2))
     if tier != "thorough":
@@ -171,14 +177,22 @@ def cases_c08(ctx):
 
 
 # ----------------------------------------------------------------------------------------------- C14
-def c14_multi(seed, nfiles, mode, build):
-    """a multi-file project: the second and third non-forced runs must leave every byte and mtime untouched"""
+PRIM_ONLY = {
+    "lib.rs": "mod commands;\n",
+    "commands.rs": "#[tauri::command]\npub fn ping(n: i32) -> String {\n    n.to_string()\n}\n\n"
+                   "#[tauri::command]\npub async fn add(a: u64, b: u64, note: Option<String>) -> Result<u64, String> {\n    Ok(a + b)\n}\n",
+}
+
+
+def c14_multi(seed, nfiles, mode, build, viz=False, prim=False):
+    """a multi-file project: the second and third non-forced runs must leave every byte and mtime untouched
+    (`viz`: with the dependency visualisation switched on; `prim`: a project whose commands use no serde type at all)"""
     p = projgen.make_project(seed, nfiles, dup=True)
     d = proc.sandbox("c14")
     try:
-        proc.write_files(os.path.join(d, "src-tauri"), projgen.render(p))
+        proc.write_files(os.path.join(d, "src-tauri"), PRIM_ONLY if prim else projgen.render(p))
         with open(os.path.join(d, "typegen.json"), "w") as fh:
-            json.dump({"project_path": "src-tauri", "output_path": "out", "validation_library": mode,
+            json.dump({"project_path": "src-tauri", "output_path": "out", "validation_library": mode, "visualize_deps": viz,
                        "type_mappings": {"PathBuf": "string", "Uuid": "string", "DateTime<Utc>": "string"}}, fh)
         if build:
             with open(os.path.join(d, "tauri.conf.json"), "w") as fh:
@@ -193,7 +207,7 @@ def c14_multi(seed, nfiles, mode, build):
             s2 = proc.snapshot(os.path.join(d, "out"))
             ok = ok and rck == 0
             touched += [n for n in set(s1) | set(s2) if s1.get(n) != s2.get(n) and n not in touched]
-        return Case({"what": "rerun", "seed": seed, "nfiles": nfiles, "mode": mode, "build": build},
+        return Case({"what": "rerun", "seed": seed, "nfiles": nfiles, "mode": mode, "build": build, "viz": viz, "prim": prim},
                     {"rerun_touches_nothing": ok and not touched}, detail={"touched": touched, "stderr": e1[-200:]})
     finally:
         proc.cleanup(d)
@@ -237,13 +251,15 @@ def cases_c14(ctx):
     if ctx["replay"]:
         d = ctx["replay"]["replay_case"]
         if d.get("what") == "rerun":
-            return [c14_multi(d["seed"], d["nfiles"], d["mode"], d["build"])]
+            return [c14_multi(d["seed"], d["nfiles"], d["mode"], d["build"], d.get("viz", False), d.get("prim", False))]
         if d.get("what") == "flag_vs_config":
             return [c14_flag_vs_config(d["flag"], d["config_force"], d["build"])]
         return history_cases([(d["steps"], d["build"])], ctx, extra_oracle=force_oracle)
     out = []
     n = 24 if tier == "thorough" else 6
-    jobs = [(seed * 100 + i, 1 + (i % 6), ("none", "zod")[i % 2], bool((i // 2) % 2)) for i in range(n)]
+    jobs = [(seed * 100 + i, 1 + (i % 6), ("none", "zod")[i % 2], bool((i // 2) % 2), i % 3 == 1, False) for i in range(n)]
+    # visualisation on/off x a project without any serde type, both paths
+    jobs += [(seed * 100 + 90 + i, 1, ("none", "zod")[i % 2], bool(i // 2 % 2), bool(i // 4 % 2), True) for i in range(8)]
     out += list(POOL.map(lambda a: c14_multi(*a), jobs))
     hs = []
     for build in (False, True):
@@ -280,10 +296,43 @@ def fault_oracle(steps, obs):
     return {"failure_reported_and_recovered": ok}
 
 
+def c17_init_case(fault, mode):
+    """`init` writes the configuration and runs the first generation: a write fault in that generation must fail the
+    command, and a later plain `generate` with the same settings ends like a fresh generation"""
+    d = proc.sandbox("c17init")
+    try:
+        proc.write_files(os.path.join(d, "src-tauri"), hist.render_sources({"type_mappings": 0}))
+        names = ["types.ts", "commands.ts", "events.ts", "index.ts"]
+        out = os.path.join(d, "out")
+        os.makedirs(out, exist_ok=True)
+        target = os.path.join(out, names[fault])
+        os.mkdir(target)
+        args = ["init", "-p", "src-tauri", "-g", "out", "-o", "typegen_init.json", "--force", "-v", mode]
+        rc1, so1, se1 = proc.run_cli(d, args)
+        os.rmdir(target)
+        rc2, so2, se2 = proc.run_cli(d, ["generate", "-p", "src-tauri", "-o", "out", "--validation", mode])
+        fresh = proc.sandbox("c17fresh")
+        try:
+            shutil.copytree(os.path.join(d, "src-tauri"), os.path.join(fresh, "src-tauri"))
+            rc3, _, _ = proc.run_cli(fresh, ["generate", "-p", "src-tauri", "-o", "out", "--validation", mode, "--force"])
+            want = proc.read_out(os.path.join(fresh, "out"))
+        finally:
+            proc.cleanup(fresh)
+        have = proc.read_out(out)
+        stale = [n for n in want if n != ".typecache" and have.get(n) != want[n]]
+        return Case({"what": "init_fault", "fault": fault, "mode": mode},
+                    {"init_failure_reported": rc1 != 0, "recovered_like_fresh": rc2 == 0 and rc3 == 0 and not stale},
+                    detail={"rc": [rc1, rc2, rc3], "stale": stale, "stderr": se1[-200:]})
+    finally:
+        proc.cleanup(d)
+
+
 def cases_c17(ctx):
     tier = ctx["tier"]
     if ctx["replay"]:
         d = ctx["replay"]["replay_case"]
+        if d.get("what") == "init_fault":
+            return [c17_init_case(d["fault"], d["mode"])]
         return history_cases([(d["steps"], d["build"])], ctx, extra_oracle=fault_oracle)
     hs = []
     for build in (False, True):
@@ -308,11 +357,19 @@ def cases_c17(ctx):
                 if tier == "thorough":
                     hs.append((pre + [RUN(), EDIT("struct_field_type"), RUN(fault=f), EDIT("struct_field_type", -1), RUN(), RUN()], build))
                     hs.append((pre + [RUN(fault=f), RUN(fault=(f + 1) % (nfiles + 1)), RUN()], build))
+    # the cache record itself cannot be removed or rewritten while the binding files stay writable
+    for build in (False, True):
+        hs.append(([RUN(), EDIT("param_type"), RUN(fault=0, kind="immcache"), EDIT("param_type", -1), RUN()], build))
+        hs.append(([RUN(), EDIT("param_type"), RUN(fault=0, kind="immcache"), RUN()], build))
+        hs.append(([RUN(), EDIT("cmd_name"), RUN(forced=True, fault=0, kind="immcache"), EDIT("cmd_name", -1), RUN()], build))
     for build in (False, True):
         for left in ("schemas.ts", "bindings.d.ts", "generated_old.ts"):
             hs.append(([RUN(), EDIT("param_type"), RUN(leftover=left), EDIT("param_type", -1), RUN()], build))
             hs.append(([RUN(leftover=left), RUN()], build))
-    return history_cases(hs, ctx, extra_oracle=fault_oracle)
+    out = history_cases(hs, ctx, extra_oracle=fault_oracle)
+    for f in range(4):
+        out.append(c17_init_case(f, ("none", "zod")[f % 2]))
+    return out
 
 
 # ----------------------------------------------------------------------------------------------- C16
@@ -351,7 +408,8 @@ def c16_case(layout, path_kind, mode, seq, seed, tables=None):
         proc.write_files(os.path.join(proj, "src-tauri"), projgen.render(p))
         proc.write_files(proj, {"tauri.conf.json": json.dumps({"productName": "demo", "plugins": {"other": {"k": [1, 2]}}}, indent=2),
                                 "package.json": "{}", "src/main.ts": "console.log(1)\n", "../sibling.txt": "outside\n"})
-        out_rel = {"beside": "out", "nested": "src-tauri/generated", "deep": "web/src/lib/bindings", "up": "../outside_out"}[layout]
+        out_rel = {"beside": "out", "nested": "src-tauri/generated", "deep": "web/src/lib/bindings", "up": "../outside_out",
+                   "backslash": "ui\\generated", "spaces": "gen out/my bindings", "dotted": "./out2/./bindings/"}[layout]
         out_abs = os.path.normpath(os.path.join(proj, out_rel))
         os.makedirs(out_abs, exist_ok=True)
         for n in FOREIGN + RESERVED_DECOYS:
@@ -402,6 +460,14 @@ def c16_case(layout, path_kind, mode, seq, seed, tables=None):
             elif act == "drop_commands":
                 shutil.rmtree(os.path.join(proj, "src-tauri"))
                 proc.write_files(os.path.join(proj, "src-tauri"), {"lib.rs": "pub fn helper() {}\n"})
+                continue
+            elif act in ("block_probe", "unblock_probe"):
+                # the write probe of `finalize_generation` cannot be created: a directory of its name is in the way
+                probe = os.path.join(out_abs, (tables or {}).get("write_probe", [".write_test_generated"])[0])
+                if act == "block_probe":
+                    os.makedirs(probe, exist_ok=True)
+                elif os.path.isdir(probe):
+                    os.rmdir(probe)
                 continue
             elif act == "need_conf":
                 proc.write_files(os.path.join(proj, "src-tauri"), {"tauri.conf.json": json.dumps({"identifier": "x", "plugins": {}})})
@@ -500,14 +566,20 @@ def cases_c16(ctx):
         ["build", "drop_commands", "build"],
         ["generate", "tamper_cache", "touch_source", "generate", "generate"],
         ["build", "tamper_cache", "touch_source", "build"],
+        # a run that fails while managing its output, with unchanged sources (cache hit), then recovery
+        ["build", "block_probe", "build", "unblock_probe", "build"],
+        ["generate", "block_probe", "generate", "touch_source", "generate", "unblock_probe", "generate"],
+        ["block_probe", "build", "unblock_probe", "build"],
     ]
     jobs = []
     k = 0
-    for layout in ("beside", "nested", "deep", "up"):
+    for layout in ("beside", "nested", "deep", "up", "backslash", "spaces", "dotted"):
         for path_kind in ("rel", "abs"):
             for seq in seqs:
                 k += 1
                 if tier != "thorough" and k % 2 == 0 and layout in ("deep",):
+                    continue
+                if tier != "thorough" and k % 3 != 0 and layout in ("backslash", "spaces", "dotted"):
                     continue
                 jobs.append((layout, path_kind, ("none", "zod")[k % 2], seq, seed * 10 + k % 3, ctx["tables"]))
     out = list(POOL.map(lambda a: c16_case(*a), jobs))
